@@ -44,7 +44,7 @@ theorem dropped_otherwise (H : Hash) (cfg : Cfg) (s : St) (t i : Nat) (fate : Fa
 theorem at_most_one_inflight (H : Hash) (cfg : Cfg) (nS nD : Nat) (ls : List Label) (i : Nat) :
     let s := run H cfg (init nS nD) ls
     (s.inflight.getD i []).Nodup ∧
-    ∀ key, key ∈ s.inflight.getD i [] ↔ ∃ t, s.tasks[t]? = some (⟨i, .inHandler key⟩ : Task) := by
+    ∀ key, key ∈ s.inflight.getD i [] ↔ ∃ t : Nat, s.tasks[t]? = some (⟨i, .inHandler key⟩ : Task) := by
   sorry
 
 /-- Once a handler has returned, its key is free again: the same identifier is served again. -/
